@@ -244,6 +244,12 @@ func c16Drivers() []*icCfg {
 		// "after writes have drained" reached through a Wait that ran concurrently with other clients' writes and deletes (its
 		// marker in the middle, at the start or at the end of a batch of 4): the views must be exact after the final drain
 		{Name: "V7-concurrent-wait", O: hOpts{MaxSize: 2, ChanSize: 4, BufSize: 4}, Pre: []icOp{S(1)}, Scripts: [][]icOp{{{Kind: "wait"}, S(4)}, {S2(2), D(1)}, {S(3)}}, Post: post},
+		// Gets of a TTL key around its deadline: before it, after it but before the reclaiming tick was applied (the entry is
+		// still in the map: such a Get returns nothing and is a miss), and after the reclaim - plain and loading
+		{Name: "V8-gets-around-the-deadline", O: big, Pre: []icOp{{Kind: "set", K: 1, Cost: 1, TTL: sec}, S(3)},
+			Scripts: [][]icOp{{G(1), G(1)}, {{Kind: "tick", Arg: 2 * sec}}, {G(1), G(3)}}, Post: post},
+		{Name: "V8L-loading-gets-around-the-deadline", O: big, Loading: true, LoadCost: 1, Pre: []icOp{{Kind: "set", K: 1, Cost: 1, TTL: sec}},
+			Scripts: [][]icOp{{L(1), G(1)}, {{Kind: "tick", Arg: 2 * sec}}, {G(1)}}, Post: post},
 		{Name: "V3-loading", O: big, Loading: true, LoadCost: 1, Pre: []icOp{S(1)}, Scripts: [][]icOp{{L(1), L(2)}, {L(2), G(1)}, {D(1), L(1)}}, Post: post},
 	}
 }
